@@ -175,6 +175,7 @@ PROPS = {
     "C20": dict(
         title="Revisit creation and merge are mutually consistent",
         lean_modules=["Gowarc.Props.C20"],
+        known_from=["C19"],
         n_quick=3000, n_thorough=15000,
         required_theorems=["C20_revisit", "C20_ref_fields", "C20_payload_digest", "C20_merge", "C20_roundtrip", "C20_merge_refuses", "C20_no_ref_of_revisit", "toRevisit_ok"],
         model_assumptions=["http.ReadResponse / http.ReadRequest acceptance of the protocol header is the oracle Ω.http, evaluated by the implementation per case",
